@@ -238,6 +238,39 @@ __CPROVER_assigns(g_rec_calls, g_rec_arg, g_clear_calls)
     return U
 
 
+def ignorer_units():
+    """initialize_filtration(bool): which simplices the filtration range leaves out.  With ignore_infinite_values the
+    lambda ignores exactly the simplices whose value is the type's infinity (max() for integral types); by default it
+    ignores nothing ("lists every (non-ignored) simplex")."""
+    from vp.extract import grab_expr
+    U = []
+    for T, nl, top, nd in (("int", "#define VP_NL_HAS_INFINITY 0\n#define VP_NL_INFINITY 0\n#define VP_NL_MAX INT_MAX\n", "INT_MAX", "nondet_int()"),
+                           ("double", "#define VP_NL_HAS_INFINITY 1\n#define VP_NL_INFINITY INFINITY\n#define VP_NL_MAX DBL_MAX\n", "INFINITY", "nondet_double()")):
+        inf_expr = grab_expr(ST, r"inline static const Filtration_value inf_ = ([^;]*);", NL_SUBS)
+        G = (f"#include <math.h>\n#include <float.h>\ntypedef {T} Filtration_value;\n{nl}#define inf_ ({inf_expr})\n"
+             "int nondet_int(void); double nondet_double(void);\n")
+        f_inf = Fn(ST, r"static const Filtration_value& get_infinity\(\)", "get_infinity", "", sig_subs=[(r"Filtration_value&", "Filtration_value")])
+        nonan = "!isnan(fv)" if T == "double" else "1"
+        f_ign = Fn(ST, r"void initialize_filtration\(bool ignore_infinite_values = false\) const", "ignorer_infinite", f"""
+__CPROVER_requires({nonan})
+__CPROVER_ensures(__CPROVER_return_value == (fv == {top}))
+__CPROVER_assigns()
+""", piece={"kind": "slice", "first": r"return filtration\(sh\) ==", "last": r"get_infinity\(\);", "sig": "bool ignorer_infinite(Filtration_value fv)"},
+                   scopes=["Filtration_simplex_base_real"], subs=[(r"filtration\(sh\)", "fv")] + [(rx, rep, 0) for rx, rep in NL_SUBS], canary=(r"==", "!="))
+        U.append(Unit(f"order.ignorer.infinite_values.{T}", "C03", [f_inf, f_ign], enforce="ignorer_infinite", globals_=G, inputs=["in_f"],
+                      replay=mk_replay_ignorer(T),
+                      harness=f"int main(void) {{\n  {T} in_f = {nd};\n  ignorer_infinite(in_f);\n  __CPROVER_assert(0, \"VP_REACH\");\n  return 0;\n}}\n",
+                      desc=f"initialize_filtration(true), Filtration_value = {T}: a simplex is left out of the filtration range exactly when its value is the type's infinity"))
+    f_none = Fn(ST, r"void initialize_filtration\(bool ignore_infinite_values = false\) const", "ignorer_default", """
+__CPROVER_ensures(!__CPROVER_return_value)
+__CPROVER_assigns()
+""", piece={"kind": "slice", "first": r"return false;", "last": r"return false;", "sig": "bool ignorer_default(int sh)"}, canary=(r"false", "true"))
+    U.append(Unit("order.ignorer.default", "C03", [f_none], enforce="ignorer_default", globals_="int nondet_int(void);\n", inputs=["in_sh"],
+                  harness="int main(void) {\n  int in_sh = nondet_int();\n  ignorer_default(in_sh);\n  __CPROVER_assert(0, \"VP_REACH\");\n  return 0;\n}\n",
+                  desc="initialize_filtration(): by default no simplex is left out of the filtration range"))
+    return U
+
+
 def units(tier):
     U = []
     G = GLUE + "bool g_rlo[NS][NS];\n"
@@ -274,6 +307,7 @@ def units(tier):
                   desc="lemma: the filtration comparator is a strict total order given that reverse_lexicographic_order is one - any correct sort yields one sequence, whatever the schedule"))
     U += lifetimes_units()
     U += prune_units()
+    U += ignorer_units()
     U += extended_units(tier)
     # K6: the cubical comparator (shared with C13)
     for u in c13.comparator_units():
@@ -333,6 +367,17 @@ def mk_replay_prune(T):
         if "in_f" not in i:
             return {"reproduced": None, "detail": "threshold not in the trace"}
         cmd = [_bin("simplex_values"), "prune", T, _val(i["in_f"]), "0"]
+        rc, o, e, s = sh(cmd, 60)
+        return {"reproduced": True if rc == 1 else (False if rc == 0 else None), "cmd": " ".join(cmd), "detail": (o + e).strip()[-500:], "rc": rc}
+    return rp
+
+
+def mk_replay_ignorer(T):
+    def rp(unit, failure):
+        i = failure["inputs"]
+        if "in_f" not in i:
+            return {"reproduced": None, "detail": "value not in the trace"}
+        cmd = [_bin("simplex_values"), "ignore", T, _val(i["in_f"]), "0"]
         rc, o, e, s = sh(cmd, 60)
         return {"reproduced": True if rc == 1 else (False if rc == 0 else None), "cmd": " ".join(cmd), "detail": (o + e).strip()[-500:], "rc": rc}
     return rp
